@@ -6,7 +6,7 @@ DRIVER = "fvd_c01"
 DRIVER_TAKES_ANSWER = True
 LEAN_TARGETS = ["FalconProofs.Props.C01", "fvd_c01"]
 PROPS_MODULE = "FalconProofs.Props.C01"
-LEVEL = "proof"
+LEVEL = "translation_validation"
 GEN_TIMEOUT = 3000
 RULE = ("one instruction x one machine state per case. Encodings: hand-written opcode-map rows for every mnemonic the x86 "
         "dispatcher accepts (one-byte map ALU/shift/mov/stack/string/control rows, 0f map, SSE subset) x operand-size/REX.W/"
@@ -178,3 +178,27 @@ def nontrivial(c):
     if a and fp[0].startswith("0x"):
         return int(fp[0], 16) != int(a.group(2), 16) + len(a.group(1)) // 2
     return False
+
+
+PROVED_HELPERS = ["set_zf", "set_sf", "set_of", "set_cf", "adc two-step carry", "sbb two-step borrow", "inc/dec/neg/cmp flag forms",
+                  "shl/shr/sar CF and result for every masked count", "cc_condition (16 codes)",
+                  "X86Register::get/set (64/32/16/8-bit, high byte; bit-vector level both modes' algebra, IL level in 64-bit mode)"]
+MIRRORED_CLASS = "mov add sub cmp and or xor x (register, register), both modes, all sub-register shapes: falcon's dumped IL == X86Lift.liftRR syntactically on every generated case"
+# instruction-level lift_correct is not proved for any class: every mnemonic the dispatcher accepts is covered by the
+# four-way differential only (option (C) of LIFTER_BRIEF); those whose flag/condition/sub-register helpers are proved are marked
+UNPROVED_MNEMONICS = sorted("""adc add and bsf bsr bswap bt btc btr bts call cbw cdq cdqe clc cld cmc cmovcc cmp cmpsb cmpxchg cwd cwde dec div idiv imul
+inc jcc jcxz jecxz jmp lea leave lodsb lodsd loop loope loopne mov movabs movaps movapd movd movdqa movdqu movhpd movlpd movnti movq movsb movsw
+movsd movsq movsx movsxd movups movzx mul neg nop not or paddq pause pcmpeqb pcmpeqd pminub pmovmskb pop por prefetch pshufd pslldq psrldq
+psubb psubq punpcklbw punpcklwd push pxor ret rol ror sahf sar sbb scasb scasw setcc shl shld shr shrd stc std stos sub test xadd xchg xor""".split())
+NOT_COMPARED = ["cli", "sti", "hlt", "int", "syscall", "sysenter", "ud2", "wait (x87 state)"]
+
+
+def extra_coverage():
+    return {
+        "oracles": ["falcon executor on lifted IL", "Lean IL semantics on dumped IL", "Lean x86 specification (both modes)", "host CPU single-step (amd64)"],
+        "proved_helpers": PROVED_HELPERS,
+        "mirrored_class_syntactic_check": MIRRORED_CLASS,
+        "unproved_classes": "instruction-level agreement (lift_correct) for every mnemonic: differential only",
+        "unproved_mnemonics": UNPROVED_MNEMONICS,
+        "lifted_but_not_compared": NOT_COMPARED,
+    }
